@@ -174,6 +174,12 @@ func BuildFields(m MessageBuildContext) ([]*Field, error) {
 		}
 	}
 
+	// Inject the artificial field as well when no field is left (all of them are excluded): the object would
+	// have no attributes otherwise and the converters nothing to read or write
+	if len(fields) == 0 {
+		fields = append(fields, BuildPlaceholderField(m.GetPath()))
+	}
+
 	// Sort fields if required
 	if m.config.Sort {
 		sort.Slice(fields, func(i, j int) bool {
